@@ -38,6 +38,7 @@ import (
 	"sort"
 	"strconv"
 	"strings"
+	"sync"
 	"time"
 
 	"golang.org/x/exp/slog"
@@ -786,6 +787,82 @@ func caseSession() {
 
 // the %g rendering of finite non-zero floats over the whole range (hypothesis
 // g_string of the theorems): one case line per batch
+// Uploads in flight together: several rounds; in each round 4..16 valid
+// reports of ONE week whose directory does not exist yet (different X, so
+// different objects) are posted by goroutines released at the same moment.
+// Every one of them is a valid request: each must be answered 2xx and stored.
+//
+//	batch <cfg> <k> { <dec> <2xx|...> } <outside_ok> <tree>
+func caseBatch() {
+	base, err := os.MkdirTemp(vroot, "b")
+	if err != nil {
+		panic(err)
+	}
+	defer os.RemoveAll(base)
+	os.WriteFile(filepath.Join(base, "outside.txt"), []byte("outside"), 0666)
+	cfgJSON, _ := json.Marshal(verifUploadConfig)
+	cfgPath := filepath.Join(base, "config.json")
+	os.WriteFile(cfgPath, cfgJSON, 0666)
+	cfg := config.NewConfig()
+	cfg.LocalStorage = filepath.Join(base, "store")
+	cfg.UploadConfig = cfgPath
+	cfg.ProjectID = ""
+	cfg.UseGCS = false
+	cfg.DevMode = false
+	handler := newHandler(context.Background(), cfg)
+	uploadDir := filepath.Join(cfg.LocalStorage, cfg.UploadBucket)
+	outside := vsnapshot(base, uploadDir)
+
+	type shot struct {
+		raw  []byte
+		code int
+	}
+	var all []*shot
+	rounds := 2 + vrnd.Intn(3)
+	for r := 0; r < rounds; r++ {
+		week := fmt.Sprintf("%04d-%02d-%02d", 2000+vrnd.Intn(60), 1+vrnd.Intn(12), 1+vrnd.Intn(28)+0)
+		if _, err := os.Stat(filepath.Join(uploadDir, week)); err == nil {
+			continue // the point is a week that has no directory yet
+		}
+		k := 4 + vrnd.Intn(13)
+		var round []*shot
+		for i := 0; i < k; i++ {
+			sp := goodSpec([][2]string{{week, fmt.Sprintf("0.%d%03d", 1+r, i*7+1)}})
+			round = append(round, &shot{raw: sp.body()})
+		}
+		start := make(chan struct{})
+		var wg sync.WaitGroup
+		for _, sh := range round {
+			wg.Add(1)
+			go func(sh *shot) {
+				defer wg.Done()
+				req := httptest.NewRequest("POST", "/upload/", bytes.NewReader(sh.raw))
+				rec := httptest.NewRecorder()
+				<-start
+				handler.ServeHTTP(rec, req)
+				sh.code = rec.Result().StatusCode
+			}(sh)
+		}
+		close(start)
+		wg.Wait()
+		all = append(all, round...)
+	}
+	fields := []string{"batch"}
+	fields = append(fields, cfgTokens()...)
+	fields = append(fields, I(int64(len(all))))
+	for _, sh := range all {
+		dec, _ := decTokens(sh.raw)
+		fields = append(fields, dec...)
+		fields = append(fields, fmt.Sprintf("%dxx", sh.code/100))
+		vout.Note(fmt.Sprintf("batch-status:%dxx", sh.code/100))
+	}
+	fields = append(fields, B(reflect.DeepEqual(outside, vsnapshot(base, uploadDir))))
+	tree, _ := vtree(uploadDir)
+	fields = append(fields, tree...)
+	vout.Note("batch:concurrent-first-uploads-of-new-weeks")
+	vout.Case(true, fields...)
+}
+
 func caseRender() {
 	fields := []string{"render", I(64)}
 	for i := 0; i < 64; i++ {
@@ -824,6 +901,8 @@ func verifEndpointMain() {
 	for i := 0; i < n; i++ {
 		if i%20 == 19 {
 			caseRender()
+		} else if i%20 == 7 || i%20 == 13 {
+			caseBatch()
 		} else {
 			caseSession()
 		}
